@@ -190,6 +190,33 @@ func (w *World) buildSend(v *View, cp CurParams) (*TxSpec, string) {
 		// recipients given as something else than a 20-byte address (a raw 32-byte key, a short string)
 		to = sdk.Address(w.R.Bytes(40)[:[]int{32, 21, 5, 1}[w.R.Intn(4)]])
 	}
+	if w.R.Chance(3) && a.Multi == nil {
+		// ... or an actor's own address with a byte appended / its last byte cut off: a different account
+		o := w.All[w.R.Intn(len(w.All))]
+		ext := append(append(sdk.Address{}, o.Addr...), byte(w.R.Intn(256)))
+		if w.R.Chance(25) {
+			ext = append(sdk.Address{}, o.Addr[:19]...)
+		}
+		to = ext
+		w.Extended = append(w.Extended, ExtendedAddr{Owner: o, Addr: ext})
+	}
+	if len(w.Extended) > 0 && w.R.Chance(6) {
+		// the holder of key K tries to spend from the account at K's address plus/minus a byte
+		x := w.Extended[w.R.Intn(len(w.Extended))]
+		amt := int64(1 + w.R.Intn(1000))
+		s := w.honest(x.Owner, posTypes.MsgSend{FromAddress: x.Addr, ToAddress: x.Owner.Addr, Amount: sdk.NewInt(amt)}, cp)
+		s.PubInSig = x.Owner.Pub
+		return s, "send-from-lookalike-address"
+	}
+	if w.ForeignKey != nil && w.R.Chance(8) {
+		// the key recorded in the account signs, without a key in the signature (or with it)
+		s := w.honest(w.ForeignKey, posTypes.MsgSend{FromAddress: w.ForeignAcct, ToAddress: w.ForeignKey.Addr, Amount: sdk.NewInt(int64(1 + w.R.Intn(100000)))}, cp)
+		s.PubInSig = nil
+		if w.R.Chance(25) {
+			s.PubInSig = w.ForeignKey.Pub
+		}
+		return s, "send-from-account-with-foreign-key"
+	}
 	bal := v.Bal(a.AddrHex()).Int64()
 	fee := cp.RequiredFee("send")
 	var amt int64
